@@ -101,5 +101,6 @@ func specMs(d time.Duration) float64 { return ConvertDurationToMs(d) }
 //@ loop 1 invariant[C06.order] sendN == old(sendN) + (i - int(p.MinTTL)) && forall(k, old(sendN), sendN, sel(sendLog, k) == int(p.MinTTL) + (k - old(sendN)))
 //@ loop 1 invariant[C06.pace] forall(k, old(sendN)+1, sendN, sel(sendClock, k) >= sel(sendClock, k-1) + int(p.SendDelay))
 //@ loop 1 invariant[C06.last] sendN > old(sendN) ==> now() >= sel(sendClock, sendN-1) + int(p.SendDelay)
+//@ loop 1 step[C05.ser.first] forall(k, 0, len(results), iter(results[k]) != nil ==> results[k] == iter(results[k]))
 //@ loop 2 invariant[j.probe]  probe != nil ==> p.MinTTL <= probe.TTL && probe.TTL <= p.MaxTTL
 //@ loop 2 invariant[j.clock]  now() >= sel(sendClock, sendN-1)
